@@ -91,6 +91,80 @@ def check_file(names, stem, style):
         shutil.rmtree(tmp, ignore_errors=True)
 
 
+# ---- rewrite leg: one path, rewritten in place and read again in the same process -------------------------------------------------
+_RW_TEMPLATE = """{
+ '%s': {'rewards': [0, %d, 0],
+            'players': ['Player 1', 'Probabilistic', 'Probabilistic'],
+            'transition_list': [[('%s', 1)], [(1.0, 2)], [(1.0, %d)]],
+            'final_states': [2]},
+}
+"""
+# same length: 0, 1, 2, 3 differ in one character each (a reward, an action name, a successor, the game's name); 4 is longer
+RW_TEXTS = [_RW_TEMPLATE % ("game_1", 3, "a", 2), _RW_TEMPLATE % ("game_1", 5, "a", 2), _RW_TEMPLATE % ("game_1", 3, "b", 2),
+            _RW_TEMPLATE % ("game_2", 3, "a", 2), _RW_TEMPLATE % ("game_1", 3, "a", 1) + "\n"]
+RW_STAMP = 1_700_000_000_000_000_000
+
+
+def check_rewrites(history):
+    """history = ((text index, pin the modification time), ...): inputs/rw.py is written, read and run through main -s after every step"""
+    import ast
+    tmp = tempfile.mkdtemp(prefix="crverif_c16rw_")
+    cwd, argv = os.getcwd(), sys.argv
+    try:
+        os.mkdir(os.path.join(tmp, "inputs"))
+        os.mkdir(os.path.join(tmp, "outputs"))
+        os.chdir(tmp)
+        path = os.path.join("inputs", "rw.py")
+        for step, (idx, pin) in enumerate(history):
+            with open(path, "w", encoding="utf-8") as f:
+                f.write(RW_TEXTS[idx])
+            if pin:
+                os.utime(path, ns=(RW_STAMP, RW_STAMP))
+            d = ast.literal_eval(RW_TEXTS[idx])
+            where = "step %d of the rewrite history %r of inputs/rw.py (text index, modification time pinned)" % (step + 1, list(history))
+            try:
+                read = CR.read_dict_from_file(path)
+            except Exception as e:                               # noqa: BLE001
+                return [("C16/rewrite-reader-exception", "%s: %s" % (type(e).__name__, e), None, "read_dict_from_file failed at " + where)]
+            if read != d or repr(read) != repr(d):
+                return [("C16/rewrite-stale", repr(read)[:300], repr(d)[:300],
+                         "read_dict_from_file did not return the games the file denotes now, at " + where)]
+            st, expect = budget.run_budgeted(lambda: CR.run_games(copy.deepcopy(d)), cpu_s=60.0, max_lines=100_000_000)
+            if st != "ok":
+                return [("C16/batch-crash", repr(expect), None, "run_games failed on the file's dictionary")]
+            sys.argv = ["conditionalrewards.py", "-f", path, "-s"]
+            st, val = budget.run_budgeted(CR.main, cpu_s=60.0, max_lines=100_000_000)
+            if st != "ok":
+                return [("C16/main-crash", repr(val), None, "main() -f %s -s failed at %s: %r" % (path, where, val))]
+            try:
+                blocks = B.parse_report(open(os.path.join("outputs", "rw.txt"), encoding="utf-8").read())
+            except (OSError, ValueError) as e:
+                return [("C16/report-format", str(e), None, "the report is missing or does not follow the line-per-field layout at %s: %s" % (where, e))]
+            why = B.compare_report(blocks, expect)
+            if why:
+                return [("C16/rewrite-report-differs", why, None, "the report does not state what the file denotes now, at %s: %s" % (where, why))]
+        return []
+    finally:
+        sys.argv = argv
+        os.chdir(cwd)
+        shutil.rmtree(tmp, ignore_errors=True)
+
+
+def work_rewrites(shard):
+    out = {"rw_histories": 0, "rw_steps": 0, "violations": [], "n_violations": 0}
+    for pos, h in enumerate(shard):
+        f = check_rewrites(h)
+        out["rw_histories"] += 1
+        out["rw_steps"] += len(h)
+        for x in f:
+            out["n_violations"] += 1
+            if len([c for c in out["violations"] if c["klass"] == x[0]]) < 2:
+                out["violations"].append({"kind": "history", "klass": x[0], "input": {"rewrite_history": [list(s) for s in h]},
+                                          "config": {"rewrite_histories_before_in_the_same_process": [[list(s) for s in g] for g in shard[:pos]]},
+                                          "observed": x[1], "expected": x[2], "explanation": x[3]})
+    return out
+
+
 def work(shard):
     out = {"files": 0, "blocks": 0, "violations": [], "n_violations": 0, "nontrivial": 0, "samples": []}
     for pos, (names, stem, style) in enumerate(shard):
@@ -114,7 +188,9 @@ RULE = ("input files = every ordered selection of 0..k games from the 7-game bat
         "empty strategy lists, a 42-state board game for long float vectors) x 6 file stems (underscores, digits, stems ending in 'p'/'y') x 4 textual renderings of the same dictionary "
         "(plain repr, pretty-printed with a comment preamble, arithmetic expressions instead of literals, indented text with calls of built-in functions addressed through a symbolic link of another name); each is run through the real "
         "main() -f inputs/<stem>.py -s in a scratch directory and the report is parsed by an independent parser; every worker process handles its files one after the other under the same relative path names (inputs/<stem>.py rewritten with different games), so state kept between files shows as a difference; non-trivial = the file "
-        "contains a failing game, a game with None/empty strategy entries or the 42-state game; plus files whose games carry odd names (braces, percent signs, quotes, '#', backslash, leading digit, keyword, 300 characters)")
+        "contains a failing game, a game with None/empty strategy entries or the 42-state game; plus files whose games carry odd names (braces, percent signs, quotes, '#', backslash, leading digit, keyword, 300 characters); plus the rewrite leg: one path inputs/rw.py rewritten in place and re-read / re-run through main -s in the same process, "
+        "every history of 3 (thorough: 4) rewrites over 4 (5) texts - four of the same length that differ in one character (a reward, an action name, the game's name), one longer - "
+        "x {modification time pinned to one fixed instant, left to the clock}; after every step the reader must return what the file denotes now and the report must state it")
 ASSUME = ["report layout: blocks introduced by a line of 160 '=', 14 lines per block, label padded to 24 characters then ': '",
           "expected values come from calling run_games on a deep copy of the same dictionary in the same process (floats round-trip through repr)"]
 
@@ -136,7 +212,15 @@ def run(ctx):
     tot = par.run_shards(work, [c for c in chunks if c], ctx.jobs)
     if tot["files"] != len(files) and not tot.get("skipped_shards"):
         raise par.GuardError("C16: %d of %d files" % (tot["files"], len(files)))
-    cov = {"states": tot["files"], "transitions": tot["blocks"], "traces_validated_against_impl": tot["files"],
+    # rewrite leg: every history of `depth` rewrites of one path over the text alphabet x {modification time pinned, not pinned}
+    depth, ntexts = (4, 5) if ctx.thorough else (3, 4)
+    hist = list(itertools.product(list(itertools.product(range(ntexts), (True, False))), repeat=depth))
+    rw = par.run_shards(work_rewrites, [c for c in (hist[i::ctx.jobs * 2] for i in range(ctx.jobs * 2)) if c], ctx.jobs)
+    if rw.get("rw_histories") != len(hist) and not rw.get("skipped_shards"):
+        raise par.GuardError("C16: %r of %d rewrite histories" % (rw.get("rw_histories"), len(hist)))
+    tot["violations"] = tot["violations"] + rw.get("violations", [])
+    cov = {"states": tot["files"] + rw.get("rw_steps", 0), "transitions": tot["blocks"], "traces_validated_against_impl": tot["files"] + rw.get("rw_histories", 0),
+           "rewrite_histories": rw.get("rw_histories", 0), "rewrite_steps": rw.get("rw_steps", 0), "rewrite_depth": depth, "rewrite_texts": ntexts,
            "evaluations": tot["files"], "distinct_nontrivial": tot["nontrivial"], "report_blocks_compared": tot["blocks"],
            "stems": STEMS, "renderings": STYLES, "max_games_per_file": kmax, "rule": RULE, "exhaustive": True,
            "samples": tot["samples"][:4]}
@@ -145,6 +229,16 @@ def run(ctx):
 
 def replay(case):
     i = case["input"]
+    if "rewrite_history" in i:
+        h = tuple(tuple(s) for s in i["rewrite_history"])
+        f = par.in_forked_child(lambda: check_rewrites(h))
+        if f:
+            return f[0][3]
+        before = case.get("config", {}).get("rewrite_histories_before_in_the_same_process", [])
+        for g in before:
+            check_rewrites(tuple(tuple(s) for s in g))
+        f = check_rewrites(h)
+        return ("after %d other rewrite histories in the same process: %s" % (len(before), f[0][3])) if f else None
     # in isolation first - in a forked child, so that the attempt leaves nothing behind in this process
     f = par.in_forked_child(lambda: check_file(tuple(i["games"]), i["stem"], i["style"]))
     if f:
